@@ -8,7 +8,7 @@ Print/re-parse stability is NOT decided (the repository has no printer).  Decide
       report_expected from the current token's span
 """
 from . import kwalk, cg, prov
-from .facts import callee_name
+from .facts import callee_name, AnchorMissing as facts_AnchorMissing
 
 EXPLANATION = (
     "Static analysis of MIR: decision table of BinOpKind::next_state; for every precedence level and every "
@@ -241,9 +241,121 @@ def rule_r2(F, rep):
     rep.floor(R, len(sites), 1, "ParseError::Expected construction sites")
 
 
+SLICE_LAYOUTS = [
+    # tokens after `[` (E = an expression), expected (index?, start, end, step) presence
+    (("E", "RightBracket"), ("Index", 1, 0, 0)),
+    (("Colon", "RightBracket"), ("Slice", 0, 0, 0)),
+    (("ColonColon", "RightBracket"), ("Slice", 0, 0, 0)),
+    (("Colon", "Colon", "RightBracket"), ("Slice", 0, 0, 0)),
+    (("ColonColon", "E", "RightBracket"), ("Slice", 0, 0, 1)),
+    (("Colon", "Colon", "E", "RightBracket"), ("Slice", 0, 0, 1)),
+    (("Colon", "E", "RightBracket"), ("Slice", 0, 1, 0)),
+    (("Colon", "E", "Colon", "RightBracket"), ("Slice", 0, 1, 0)),
+    (("Colon", "E", "Colon", "E", "RightBracket"), ("Slice", 0, 1, 1)),
+    (("E", "Colon", "RightBracket"), ("Slice", 1, 0, 0)),
+    (("E", "ColonColon", "RightBracket"), ("Slice", 1, 0, 0)),
+    (("E", "Colon", "Colon", "RightBracket"), ("Slice", 1, 0, 0)),
+    (("E", "ColonColon", "E", "RightBracket"), ("Slice", 1, 0, 1)),
+    (("E", "Colon", "Colon", "E", "RightBracket"), ("Slice", 1, 0, 1)),
+    (("E", "Colon", "E", "RightBracket"), ("Slice", 1, 1, 0)),
+    (("E", "Colon", "E", "Colon", "RightBracket"), ("Slice", 1, 1, 0)),
+    (("E", "Colon", "E", "Colon", "E", "RightBracket"), ("Slice", 1, 1, 1)),
+    # not in the grammar
+    (("RightBracket",), ("error",)),
+    (("E", "Colon", "E", "Colon", "E", "Colon", "RightBracket"), ("error",)),
+    (("Colon", "ColonColon", "RightBracket"), ("error",)),
+]
+
+
+def rule_r3(F, rep):
+    R = rep.rule("C15.R3", "the slice grammar accepts exactly its layouts: for every arrangement of start / end / step and the "
+                 "`:` / `::` tokens between `[` and `]`, parse_index_expr accepts the arrangement and builds an Index or Slice "
+                 "node with exactly the operands that are present (an empty step after a second colon is allowed everywhere)")
+    fn = F.fn("<%s>::parse_index_expr" % PARSER)
+    rep.fn(fn)
+    body = fn.body
+    EK = [q for q in F.adts if q.endswith("ast::ExprKind")]
+    if not EK:
+        raise facts_AnchorMissing("ast::ExprKind")
+    EK = EK[0]
+    RESULT = "core::result::Result"
+    for toks, want in SLICE_LAYOUTS:
+        def hook(w, bb, t, env, args, toks=toks):
+            n = callee_name(t) or ""
+            i = env.get("#tok", 0)
+            nxt = toks[i] if i < len(toks) else None
+            if n == "<%s>::eat_simple" % PARSER:
+                a = args[1]
+                if isinstance(a, tuple) and a[0] == "var" and a[2] == nxt:
+                    env["#tok"] = i + 1
+                    return ("var", OPTION, "Some")
+                return ("var", OPTION, "None")
+            if n == "<%s>::expect_simple" % PARSER:
+                a = args[1]
+                if isinstance(a, tuple) and a[0] == "var" and a[2] == nxt:
+                    env["#tok"] = i + 1
+                    return ("var", RESULT, "Ok")
+                return ("var", RESULT, "Err")
+            if n == "<%s>::parse_expr" % PARSER:
+                if nxt == "E":
+                    env["#tok"] = i + 1
+                    return ("var", RESULT, "Ok")
+                return ("var", RESULT, "Err")
+            if n == "<%s>::peek_simple" % PARSER:
+                a = args[1]
+                return int(isinstance(a, tuple) and a[0] == "var" and a[2] == nxt)
+            return None
+
+        def on_stmt(w, bb, idx, st, env):
+            if st["k"] != "assign":
+                return None
+            rv = st["rv"]
+            if rv["k"] == "agg" and rv["ak"] == "adt" and rv["adt"] == EK and rv["v"] in ("Slice", "Index"):
+                pres = []
+                for x in rv["xs"][1:]:
+                    v = w.val(env, x)
+                    if isinstance(v, tuple) and v[0] == "var" and v[1] == OPTION:
+                        pres.append(1 if v[2] == "Some" else 0)
+                    else:
+                        pres.append(1 if rv["v"] == "Index" else "?")
+                while len(pres) < 3:
+                    pres.append(0)
+                return ("node", rv["v"]) + tuple(pres) + (env.get("#tok", 0),)
+            return None
+        w = kwalk.Walker(F, body, call_result=hook, on_stmt=on_stmt, want_ret=True)
+        outs = w.run(0, {})
+        rep.states += w.states_explored
+        res = set()
+        for kind, marks, ret in outs:
+            if kind != "return":
+                continue
+            d = dict(ret or ())
+            top = d.get("0")
+            okret = isinstance(top, tuple) and top[0] == "var" and top[2] == "Ok"
+            nodes = [m for m in marks if m[0] == "node"]
+            if okret and nodes:
+                m = nodes[-1]
+                res.add((m[1], m[2], m[3], m[4]) if m[5] == len(toks) else ("accepted-with-leftover",))
+            elif okret:
+                res.add(("ok-without-node",))
+            else:
+                res.add(("error",))
+        exp = {want}
+        ok = res == exp
+        name = " ".join(toks)
+        rep.ob(R, "slice|%s" % name, ok, {"tokens": name, "result": sorted(map(str, res)), "expected": str(want)}
+               if len(toks) in (2, 5) else None)
+        if not ok:
+            rep.violation(R, "parse_index_expr|layout|%s" % name,
+                          "after `[`, the token sequence `%s` gives %s; the slice grammar requires %s (node, start, end, step present)"
+                          % (name, sorted(map(str, res)), want), fn.loc)
+    rep.floor(R, len(SLICE_LAYOUTS), 17, "slice layouts")
+
+
 def run(F, rep, tier):
     rule_r1(F, rep)
     rule_r2(F, rep)
-    rep.assume("print/re-parse stability is not decided (no printer exists in the repository); slice-grammar lookahead "
-               "and node span containment are not decided")
+    rule_r3(F, rep)
+    rep.assume("print/re-parse stability is not decided (no printer exists in the repository); node span containment "
+               "is not decided")
     return EXPLANATION
